@@ -87,7 +87,8 @@ def legal(variants, evname, cores):
     return True
 
 
-def scenarios(k, evnames, profnames, coreset):
+def scenarios(k, combos, coreset):
+    """combos: list of (control program, profile)"""
     out = []
     for cores in coreset:
         for ms in itertools.combinations_with_replacement(ALPHA, k):
@@ -97,29 +98,38 @@ def scenarios(k, evnames, profnames, coreset):
                 rest = list(ms)
                 rest.remove(f0)
                 variants = (f0,) + tuple(rest)
-                for ev in evnames:
+                for ev, pr in combos:
                     if ev == "none" and f0 != firsts[0]:
                         continue
                     if not legal(variants, ev, cores):
                         continue
-                    for pr in profnames:
-                        out.append(scen("s%d" % len(out), variants, ev, pr, cores))
+                    out.append(scen("s%d" % len(out), variants, ev, pr, cores))
     return out
 
 
 def bounds_for(ctx):
     E, P = list(EVPROGS), list(PROFILES)
+    FULL = list(itertools.product(E, P))
+    # reduced cross product: every control program without profile, every profile without control program, and
+    # suspend/resume across a speed and a bandwidth change
+    RED = [(e, "none") for e in E] + [("none", p) for p in P if p != "none"] + \
+          [("susp.25-res.75", "speed-periodic"), ("susp.25-res.75", "bw-oneshot")]
+    B = [("1 activity x 6 control programs x 4 profiles x cores 1,2", lambda: scenarios(1, FULL, (1, 2)))]
     if ctx.quick:
-        return [("1 activity x 6 control programs x 4 profiles x cores 1,2", lambda: scenarios(1, E, P, (1, 2))),
-                ("2 activities x 6 control programs x 4 profiles x cores 1,2", lambda: scenarios(2, E, P, (1, 2)))]
-    return [("1 activity x 6 control programs x 4 profiles x cores 1,2", lambda: scenarios(1, E, P, (1, 2))),
-            ("2 activities x 6 control programs x 4 profiles x cores 1,2", lambda: scenarios(2, E, P, (1, 2))),
-            ("3 activities x 6 control programs x 4 profiles x cores 1,2", lambda: scenarios(3, E, P, (1, 2))),
-            ("4 activities x {none, susp-res, susp-prio-res} x {none, speed-periodic} x cores 1,2",
-             lambda: scenarios(4, ["none", "susp.25-res.75", "susp.25-prio3@.5-res.75"], ["none", "speed-periodic"], (1, 2)))]
+        for combo in RED:
+            B.append(("2 activities x (%s, %s) x cores 1,2" % combo, (lambda cb: lambda: scenarios(2, [cb], (1, 2)))(combo)))
+        return B
+    for e in E:
+        B.append(("2 activities x %s x 4 profiles x cores 1,2" % e,
+                  (lambda ev: lambda: scenarios(2, [(ev, p) for p in P], (1, 2)))(e)))
+    for combo in RED:
+        B.append(("3 activities x (%s, %s) x cores 1,2" % combo, (lambda cb: lambda: scenarios(3, [cb], (1, 2)))(combo)))
+    for combo in (("none", "none"), ("susp.25-res.75", "none"), ("none", "speed-periodic")):
+        B.append(("4 activities x (%s, %s) x 2 cores" % combo, (lambda cb: lambda: scenarios(4, [cb], (2,)))(combo)))
+    return B
 
 
-PACKSIZE = 150
+PACKSIZE = 300
 
 
 def cfg_of(conf):
@@ -138,14 +148,14 @@ def observe(scens, confs, tag, prefix="p"):
     """-> {scen id: {conf: {act: (start, finish, state)} or 'crash:...'}}"""
     cs = cases_for(scens, confs, prefix)
     allc = [c for v in cs.values() for c in v]
-    res = reslib.run_cases(allc, tag=tag, timeout=60)
+    res = reslib.run_cases(allc, tag=tag, timeout=180)
     # a crashed simulation is split into single-scenario simulations
     again = []
     for conf, cl in cs.items():
         for c in cl:
             if res[c.id]["status"] != "exit=0" and len(c.scens) > 1:
                 again += [(conf, c.single(s)) for s in c.scens]
-    res2 = reslib.run_cases([c for _, c in again], tag=tag, timeout=60) if again else {}
+    res2 = reslib.run_cases([c for _, c in again], tag=tag, timeout=180) if again else {}
     obs = {s.id: {} for s in scens}
     nsim = len(allc) + len(again)
 
@@ -232,7 +242,7 @@ def run(ctx):
     groups = {}
     for s, fails in failing:
         for k, w in fails:
-            groups.setdefault(classify(k), []).append((s, k, w))
+            groups.setdefault(classify(k, w), []).append((s, k, w))
     by_class = {g: len(v) for g, v in groups.items()}
     for g, members in groups.items():
         for s, k, w in members[:2]:
@@ -268,8 +278,10 @@ def run(ctx):
                    "tolerance 1e-9 relative + 1e-9 s"], violations, engine="E4 res")
 
 
-def classify(key):
-    """Group the failing (scenario, configuration) pairs by what differs, so that one root cause is one key."""
+def classify(key, what=""):
+    """Group the failing (scenario, configuration) pairs by what differs, so that one root cause is one key: the model of the
+    differing activity (cpu or network side, and which update algorithm) and the control features of the scenario (the
+    profile only when there is no control program)."""
     lab, conf = key.split(" cfg=")
     conf = conf.split(" ")[0]
     ev = lab.split("ev(act0)=")[1].split(" |")[0]
@@ -282,15 +294,15 @@ def classify(key):
         feat.append("priority change")
     if "bound" in ev:
         feat.append("bound change")
-    if prof != "none":
+    if not feat and prof != "none":
         feat.append(prof + " profile")
-    side = []
-    if cpu != "Lazy":
-        side.append("cpu/optim:" + cpu.replace("-nosel", " without selective update"))
-    if net != "Lazy":
-        side.append("network/optim:" + net.replace("-nosel", " without selective update"))
-    crash = " crash" if key.endswith(" crash") else ""
-    return "C19 %s vs Lazy/Lazy under %s%s" % (" + ".join(side), " + ".join(feat) if feat else "plain sharing", crash)
+    if key.endswith(" crash"):
+        side = "cpu/optim:%s network/optim:%s crash" % (cpu, net)
+    elif what.startswith("c"):
+        side = "network/optim:" + net.replace("-nosel", " without selective update")
+    else:
+        side = "cpu/optim:" + cpu.replace("-nosel", "")
+    return "C19 %s differs from Lazy under %s" % (side, " + ".join(feat) if feat else "plain sharing")
 
 
 def replay(ctx, case):
@@ -306,7 +318,7 @@ def replay(ctx, case):
         print("cfg %s/%s:" % conf, o)
     fails = compare(s, ob[s.id])
     for k, w in fails:
-        print("FAIL key: %s\n     what: %s" % (classify(k), w))
+        print("FAIL key: %s\n     what: %s" % (classify(k, w), w))
     if not fails:
         print("no difference on this case")
     return 1 if fails else 0
